@@ -475,7 +475,14 @@ func proxycacheSpec(name string, origin leafFn, cacheSize, maxCacheBytes int64, 
 		if err := origin(e, "/origin/"); err != nil {
 			return nil, err
 		}
-		e.Ld.Set("/cache/", memory.NewCache(cacheSize))
+		if cacheSize < 0 {
+			// the cache is a harness leaf too (an ordinary store; fault site and scheduling point)
+			if err := leafMem(e, "/cache/"); err != nil {
+				return nil, err
+			}
+		} else {
+			e.Ld.Set("/cache/", memory.NewCache(cacheSize))
+		}
 		return e.Create("proxycache", mk{"origin": "/origin/", "cache": "/cache/", "maxCacheBytes": maxCacheBytes})
 	}}
 }
@@ -536,6 +543,7 @@ func Specs(thorough bool) []Spec {
 		proxycacheSpec("proxycache-c0-max1", leafMem, 1, 1, false),
 		proxycacheSpec("proxycache-c1blob", leafMem, 2, 1<<30, false),
 		proxycacheSpec("proxycache-inf", leafMem, 1<<30, 1<<30, false),
+		proxycacheSpec("proxycache(cache=mem,origin=mem)", leafMem, -1, 1<<30, false),
 		unionSpec("union-2-overlap", []int{3, 6}, leafMem),
 		unionSpec("union-3-overlap", []int{1, 7, 5}, leafMem),
 	)
